@@ -13,7 +13,7 @@ the CURRENT circle centre; (GUARD) from_3_points returns Err under |det| < 1e-6 
 being the distance from the computed centre to one of the three points; fit_circle returns Ok only when the solver reports
 success and returns the minimised problem's circle; ransac uses a constant seed and replaces the best only under count >
 best_count.
-Every minimize in the crate runs LevenbergMarquardt::new() with its default (relative, tight) tolerances."""
+Every minimize in the crate runs LevenbergMarquardt::new() with its default (relative, tight) tolerances. Round 5 (shared with C17): DiscreteDomain::try_from stores the vector it was handed element for element (Series1 pairs x[i] with y[i] and compares the lengths before the conversion)."""
 NOT_DECIDED = "optimality of any fit, conditioning of the inverse, convergence of the circle fit, that RANSAC finds the best-supported circle (only: every candidate is compared on its full support, and the best is replaced under strictly more inliers)"
 ASSUMPTIONS = ["vec![0.0; n] is zero-initialised", "Iterator::enumerate().take(t).skip(s) yields indices s..min(t, len)"]
 
